@@ -105,6 +105,12 @@ def other_atoms(spec, reduced):
     return out
 
 
+def term_pairs_off(spec):
+    """quick tier: pairs only for the terminators none/jmp/call/ret of the block under test"""
+    X = next(b for s in spec["sections"] for b in s["blocks"] if b["n"] == "X")
+    return len(X["i"]) == 3 and X["i"][-1][0] in ("jcc", "ijmp", "icall")
+
+
 def gen_sets(spec, tier):
     xa = x_atoms(spec)
     oa = other_atoms(spec, reduced=(tier == "quick"))
@@ -112,13 +118,17 @@ def gen_sets(spec, tier):
     yield []
     for a in xa + oa:
         yield [a]
-    xr = [a for a in xa if a.get("pn") in (None, "ord", "ret", "callG", "jmp")] if tier == "quick" else xa
+    if tier == "quick" and term_pairs_off(spec):
+        return
+    xr = [a for a in xa if a.get("pn") in (None, "ord", "ret", "callG")] if tier == "quick" else xa
+    xq = [a for a in xa if a.get("pn") in (None, "ord", "ret", "callG", "jmp", "callX", "lab")] if tier == "quick" else xa
     # X x other, both registration orders matter only at equal offsets -> one order
-    for a in xa:
+    for a in xq:
         for b in oa:
             yield [a, b]
+    xa = xq
     # X x X (non-overlapping), second atom from the reduced list
-    for i, a in enumerate(xa):
+    for i, a in enumerate(xr if tier == "quick" else xa):
         for b in xr:
             if a is b or not scen.compatible(a, b, nins):
                 continue
